@@ -18,7 +18,7 @@ tvars == <<l, run, dev>>
 
 TInit == l = 1 /\ run = [dim |-> 0] /\ dev = <<>> /\ cfg = CHOOSE c \in Configs : TRUE
 IsEvent(e) == l <= Len(TraceLog) /\ TraceLog[l].e = e /\ l' = l + 1
-Cfg(r) == [dim |-> r.dim, nc |-> r.nc, ngc |-> r.ngc, ng |-> r.ng, conv |-> r.conv, comma |-> r.comma, wsph |-> r.wsph, layout |-> r.layout, sci |-> r.sci]
+Cfg(r) == [dim |-> r.dim, nc |-> r.nc, ngc |-> r.ngc, ng |-> r.ng, conv |-> r.conv, comma |-> r.comma, wsph |-> r.wsph, layout |-> r.layout, sci |-> r.sci, remark |-> r.remark]
 
 TRun == IsEvent("Run") /\ run' = Cfg(TraceLog[l]) /\ UNCHANGED dev
 THeader == /\ IsEvent("Header")
